@@ -60,6 +60,20 @@ pub fn judge(out: &ScanOut, exp: &Expected, m: &Model) -> Option<Verdict> {
         });
     }
     let got: BTreeSet<i64> = ids.iter().copied().collect();
+    if exp.limit == Some(0) && !ids.is_empty() {
+        // narrow class: `limit(Some(0), ..)` is ignored when a filter or ordering is present
+        let avail = exp.set.len().saturating_sub(exp.offset.unwrap_or(0).max(0) as usize);
+        let sig = if got.is_subset(&exp.set) && ids.len() == avail {
+            "limit-zero-ignored-returns-all-matching-rows"
+        } else {
+            "limit-zero-returns-unexpected-rows"
+        };
+        return Some(Verdict {
+            sig: sig.into(),
+            what: format!("limit 0 returned {} rows ({} match the filter after offset)", ids.len(), avail),
+            detail: json!({"got": ids.len(), "matching": exp.set.len()}),
+        });
+    }
     if let Some(seq) = &exp.seq {
         if &ids != seq {
             let (extra, missing) = set_diff(&got, &seq.iter().copied().collect());
@@ -177,6 +191,37 @@ fn sort_ids(m: &Model, ids: &BTreeSet<i64>, order: &[(usize, bool, bool)]) -> Ve
     v
 }
 
+/// The legacy format cannot distinguish "" from NULL in a nullable string column (which one a
+/// reader sees depends on the read path). That is a storage-fidelity matter (C11/C25), not a
+/// query-semantics one: legacy tables get no empty strings in nullable string columns.
+pub fn legacy_safe(spec: &TableSpec, b: &arrow_array::RecordBatch) -> arrow_array::RecordBatch {
+    use arrow_array::{Array, ArrayRef, LargeStringArray, StringArray};
+    use std::sync::Arc;
+    let mut cols: Vec<ArrayRef> = b.columns().to_vec();
+    for (i, c) in spec.cols.iter().enumerate() {
+        if !c.nullable {
+            continue;
+        }
+        let a = &cols[i + 1];
+        match c.ty {
+            ColTy::Utf8 => {
+                let a = a.as_any().downcast_ref::<StringArray>().unwrap();
+                let v: Vec<Option<&str>> =
+                    (0..a.len()).map(|j| if a.is_null(j) { None } else if a.value(j).is_empty() { Some("e0") } else { Some(a.value(j)) }).collect();
+                cols[i + 1] = Arc::new(StringArray::from(v));
+            }
+            ColTy::LargeUtf8 => {
+                let a = a.as_any().downcast_ref::<LargeStringArray>().unwrap();
+                let v: Vec<Option<&str>> =
+                    (0..a.len()).map(|j| if a.is_null(j) { None } else if a.value(j).is_empty() { Some("e0") } else { Some(a.value(j)) }).collect();
+                cols[i + 1] = Arc::new(LargeStringArray::from(v));
+            }
+            _ => {}
+        }
+    }
+    arrow_array::RecordBatch::try_new(b.schema(), cols).unwrap()
+}
+
 pub struct BuiltTable {
     pub ds: lance::Dataset,
     pub model: Model,
@@ -198,13 +243,16 @@ pub async fn build_table(
     let mut ids = IdAlloc::new(0);
     let mut model = Model::new(&spec);
     let mut frags = vec![];
+    let version = *rng.pick(versions);
     for f in 0..nfrag {
         let n = if f + 1 == nfrag { (total / nfrag).max(1) + total % nfrag } else { (total / nfrag).max(1) };
-        let b = spec.batch(rng, &ids.take(n));
+        let mut b = spec.batch(rng, &ids.take(n));
+        if version == LanceFileVersion::Legacy {
+            b = legacy_safe(&spec, &b);
+        }
         model.insert_batch(&b);
         frags.push(b);
     }
-    let version = *rng.pick(versions);
     let max_rows_per_file = if rng.chance(1, 4) { Some(rng.urange(5, total.max(6))) } else { None };
     let max_rows_per_group = if rng.chance(1, 2) { Some(*rng.pick(&[3usize, 8, 32, 100, 1024])) } else { None };
     let uri = unique_uri(tag);
@@ -222,6 +270,22 @@ pub async fn build_table(
             model.rows.remove(v);
         }
         deleted = victims.len();
+    }
+    if version == LanceFileVersion::Legacy {
+        // The legacy (0.1) file format does not round-trip NULLs of fixed-width columns (stored as
+        // 0 / false) nor the difference between NULL and "" in nullable strings. Storage fidelity is
+        // C11/C25's subject; the query properties are judged relative to the *stored* table, so the
+        // model of a legacy table is what an unfiltered default scan reads back.
+        let out = run_scan(&ds, &Query::default(), &Knobs::default()).await.map_err(|e| format!("legacy readback: {e:?}"))?;
+        let mut stored = std::collections::BTreeMap::new();
+        for r in &out.rows {
+            let id = r[0].as_i64().ok_or("legacy readback: null id")?;
+            stored.insert(id, r.clone());
+        }
+        if stored.len() != model.rows.len() || !stored.keys().eq(model.rows.keys()) {
+            return Err(format!("legacy readback returned {} rows, wrote {}", stored.len(), model.rows.len()));
+        }
+        model.rows = stored;
     }
     let desc = format!(
         "rows={} frags={} deleted={} v={} [{}]",
@@ -358,7 +422,7 @@ pub fn run(args: &Args) -> i32 {
                         order_idx = Some(o);
                     }
                     if rng.chance(1, 3) {
-                        q.limit = if rng.chance(4, 5) { Some(rng.range(0, (ids.len() as i64 + 3).max(1))) } else { None };
+                        q.limit = if rng.chance(4, 5) { Some(if rng.chance(1, 12) { 0 } else { rng.range(1, (ids.len() as i64 + 3).max(1)) }) } else { None };
                         q.offset = if rng.chance(1, 2) { Some(rng.range(0, (ids.len() as i64 + 2).max(1))) } else { None };
                     }
                     let seq = order_idx.as_ref().map(|o| {
@@ -416,7 +480,7 @@ pub fn run(args: &Args) -> i32 {
                                     continue;
                                 }
                                 if let Some(v) = judge(&out, &exp, m) {
-                                    let sig = if ki == 0 { v.sig.clone() } else { format!("knobs-{}", v.sig) };
+                                    let sig = if ki == 0 || v.sig.starts_with("limit-zero") { v.sig.clone() } else { format!("knobs-{}", v.sig) };
                                     report.violation(&sig, &v.what, witness(knobs, v.detail));
                                 }
                             }
@@ -435,8 +499,13 @@ pub fn run(args: &Args) -> i32 {
                             }
                             Err(ScanErr::Failed(e)) => {
                                 if !selftest {
+                                    let sig = if q.limit == Some(0) && q.order.is_some() && e.contains("k > 0") {
+                                        "limit-zero-ordered-scan-panics"
+                                    } else {
+                                        "scan-failed-on-accepted-query"
+                                    };
                                     report.violation(
-                                        "scan-failed-on-accepted-query",
+                                        sig,
                                         &format!("scan failed: {}", e.chars().take(300).collect::<String>()),
                                         witness(knobs, json!({"error": e})),
                                     );
